@@ -118,6 +118,10 @@ def eigen_case(draw):
     else:
         case["sampling"] = draw(sampling2())
         case["energy"] = draw(gen.energies())
+        # history: the same accuracy used on a differently sampled grid just before
+        # (a result must not depend on which grids an operator of that accuracy saw)
+        d0 = round(draw(gen.floats(0.05, 0.3)), 4)
+        case["prior_sampling"] = [d0, d0] if draw(st.booleans()) else None
     return case
 
 
@@ -226,6 +230,18 @@ def check_stencil_eigen(case, ctx):
         iso = dx == dy
         ctx.label("via-operator-iso" if iso else "via-operator-aniso")
         md = [abtem.core.axes.UnknownAxis() for _ in range(arr.ndim - 2)]
+        prior = case.get("prior_sampling")
+        if prior is not None and tuple(prior) != (dx, dy):
+            ctx.label("after-prior-grid")
+            w0 = abtem.Waves(arr.copy(), energy=case["energy"], sampling=tuple(prior), ensemble_axes_metadata=md)
+            out0 = np.asarray(LaplaceOperator(acc).apply(w0).array).reshape((-1, nx, ny))
+            pre0 = 1.0 / prior[0] ** 2
+            scale0 = operator_norm(acc, pre0)
+            for m, (p, q) in enumerate(pqs):
+                lam0 = stencil_eigenvalue(acc, p, q, nx, ny, pre0)
+                ref0 = lam0 * arr.reshape((-1, nx, ny))[m].astype(np.complex128)
+                if not np.abs(out0[m] - ref0).max() <= 1e-5 * scale0 * np.abs(arr).max():
+                    raise Violation(f"L[e] != lambda*e on the first grid (sampling {prior}, accuracy {acc})", ("eigenvalue", "operator", "first-grid"))
         waves = abtem.Waves(arr, energy=case["energy"], sampling=(dx, dy), ensemble_axes_metadata=md)
         out = LaplaceOperator(acc).apply(waves).array
         prefactor = 1.0 / dx**2 if iso else None
